@@ -263,7 +263,7 @@ PROPS = {
     },
     "C11": {
         "level": "proof",
-        "lean_targets": ["LP.Props.C11", "LP.Props.C11Roots", "LP.Props.C12Exact"],
+        "lean_targets": ["LP.Props.C11", "LP.Props.C11Roots", "LP.Props.C12Exact", "LP.Props.C11Fallback2"],
         "harnesses": [{"name": "h_eval", "quick": 150, "thorough": 4000, "env": {"LPV_EVAL_MODE": "roots"}}],
         "select": lambda t: t[1] == "ev" and t[2] == "roots",
         "nontrivial": lambda t, r: True,
@@ -272,7 +272,7 @@ PROPS = {
                 "times a content factor that may vanish, under the C10 value tuples (algebraically dependent algebraic numbers, rationals "
                 "in all representations): rational specialisations, algebraic elimination with spurious conjugate roots, vanishing leading "
                 "coefficients and contents, multiple and rational roots. Every line is non-trivial.",
-        "trusted_base": ["driver parsing and the comparison loop that matches the library's roots one by one against the model list (uses the proved Alg.cmp); the fallback rootsByIntervals (used only when the eliminant degenerates to 0) is not covered by C11_rootsUnder_exact"],
+        "trusted_base": ["driver parsing and the comparison loop that matches the library's roots one by one against the model list (uses the proved Alg.cmp)"],
         "assumptions": ["algebraic zero tests of Sylvester order <= 8; otherwise the case is skipped and counted"],
     },
     "C12": {
